@@ -125,6 +125,9 @@ fn apply(res: &mut Response, op: &[Value], t: &Table) {
             }
         }
         "drop" => { let _ = res.drop_content(); }
+        // the header set taken apart and rebuilt through the public bulk constructor (Set-Cookie lines are left behind)
+        "rebuild" => { let old = std::mem::replace(&mut res.headers, ohkami::__verif::new_response_headers());
+                       res.headers = ohkami::__verif::ResponseHeaders::from_iter(old.into_iter().filter(|(k, _)| *k != "Set-Cookie")); }
         "status" => res.status = status_of(s(&op[1])),
         _ => {}
     }
@@ -213,9 +216,10 @@ pub fn gen(rng: &mut Rng, i: usize) -> Value {
             60..=65 => json!(["capp", c, if val == "e" { "p" } else { val }]),
             66..=73 => json!(["crem", c]),
             74..=79 => json!(["cookie", if rng.chance(1, 2) { "c1" } else { "c2" }]),
-            80..=89 => { let k = *rng.pick(&["text", "html", "json", "raw", "stream"]); let l = *rng.pick(&["n0", "n1", "n3", "n12", "n300", "n1000", "n5000"]);
+            80..=89 => { let k = *rng.pick(&["text", "html", "json", "raw", "stream"]); let l = *rng.pick(&["n0", "n1", "n3", "n8", "n12", "n248", "n300", "n1000", "n4088", "n5000"]);
                          json!(["body", k, if k == "json" && (l == "n0" || l == "n1") { "n3" } else { l }]) }
-            90..=94 => json!(["drop"]),
+            90..=92 => json!(["drop"]),
+            93..=94 => json!(["rebuild"]),
             _ => json!(["status", *rng.pick(&["s200", "s204", "s404", "s201", "s500"])]),
         });
     }
